@@ -39,6 +39,9 @@
   (u) a renamed instance attribute (same: one attribute of the class is missing, one unknown attribute with the same occurrence profile over the
       methods of the class is there) gets its reference name back everywhere in the tree
 
+  (v) `x.to_bytes(n, byteorder='big')` / `int.from_bytes(b, byteorder='big')` -> positional byte order; `bytes.fromhex('0016')` of a literal -> the
+      bytes literal
+
 (c) is a pure renaming: it is applied only when it is capture-free (the reference name is not otherwise used in the function).
 The rules therefore see the same program whether a developer renamed `index` to `pos`, rewrote `x += 1` as `x = x + 1` or swapped
 the arms of an `if`. Line numbers are untouched.
@@ -136,6 +139,16 @@ class _Canon(ast.NodeTransformer):
 
     def visit_Call(self, node: ast.Call):
         self.generic_visit(node)
+        if isinstance(node.func, ast.Attribute) and node.func.attr in ("to_bytes", "from_bytes") and len(node.keywords) == 1 and node.keywords[0].arg == "byteorder" \
+                and len(node.args) == (1 if not (isinstance(node.func.value, ast.Name) and node.func.value.id == "int" and node.func.attr == "to_bytes") else 2):
+            node.args = list(node.args) + [node.keywords[0].value]
+            node.keywords = []
+        if isinstance(node.func, ast.Attribute) and node.func.attr == "fromhex" and isinstance(node.func.value, ast.Name) and node.func.value.id == "bytes" \
+                and len(node.args) == 1 and not node.keywords and isinstance(node.args[0], ast.Constant) and isinstance(node.args[0].value, str):
+            try:
+                return ast.copy_location(ast.Constant(bytes.fromhex(node.args[0].value)), node)
+            except ValueError:
+                pass
         if isinstance(node.func, ast.Name) and node.func.id == "range" and len(node.args) == 1 and not node.keywords:
             node.args = [ast.copy_location(ast.Constant(0), node.args[0]), node.args[0]]
         return node
